@@ -125,6 +125,33 @@ Definition add_notice (st : state) (a : addargs) : option (state * bool * N) :=
       Some (mkS (replace_key (a_user a) (a_type a) (a_key a) n' (s_notices st)) last' (s_last_id st), rep, n_id n)
   end.
 
+(* ------------------------------------------------------------------------------------------ restart
+   State.MarshalJSON (the checkpoint payload) and state.ReadState / State.UnmarshalJSON, for the notice fields.
+   Which fields are written and restored is read from the source on every run (gen/NoticeTypes.v). A field that is not
+   restored comes back as Go's zero value. Expiry on reload (unflattenNotices drops expired notices) is not modelled. *)
+Record persisted := mkP {
+  p_notices : list notice;       (* marshalledState.Notices *)
+  p_last_ts : option Z;          (* marshalledState.LastNoticeTimestamp *)
+  p_last_id : N                  (* marshalledState.LastNoticeId *)
+}.
+
+Definition persist (st : state) : persisted :=
+  mkP (if NoticeTypes.persist_notices then s_notices st else [])
+      (if NoticeTypes.persist_last_ts then s_last_ts st else None)
+      (if NoticeTypes.persist_last_id then s_last_id st else 0%N).
+
+Definition reload (p : persisted) : state :=
+  mkS (if NoticeTypes.restore_notices then p_notices p else [])
+      (if NoticeTypes.restore_last_ts then p_last_ts p else None)
+      (if NoticeTypes.restore_last_id then p_last_id p else 0%N).
+
+(* snapd restarts: the last checkpoint is read back *)
+Definition restart (st : state) : state := reload (persist st).
+
+Definition persist_ok : bool :=
+  NoticeTypes.persist_notices && NoticeTypes.persist_last_ts && NoticeTypes.persist_last_id &&
+  NoticeTypes.restore_notices && NoticeTypes.restore_last_ts && NoticeTypes.restore_last_id.
+
 (* ------------------------------------------------------------------------------------------ Notices *)
 
 (* the user / type / key part of NoticeFilter.matches *)
@@ -174,7 +201,8 @@ Definition wait_enabled (st : state) (f : nfilter) : bool := negb (is_nil_b (not
 
 Inductive op :=
 | OAdd (a : addargs)
-| OPoll (client : nat).
+| OPoll (client : nat)
+| ORestart.                       (* checkpoint payload -> state.ReadState; clients keep their cursors *)
 
 (* what the driver observes of a notice (Notice.MarshalJSON projected) *)
 Record onotice := mkO {
@@ -186,7 +214,8 @@ Definition project (n : notice) : onotice :=
 
 Inductive obs :=
 | BAdd (r : option onotice)       (* None: AddNotice returned an error; else the notice as it is after the call *)
-| BPoll (l : list onotice).       (* the list State.Notices returned, in order *)
+| BPoll (l : list onotice)        (* the list State.Notices returned, in order *)
+| BRestart (n : N).               (* number of notices in the reloaded state *)
 
 Fixpoint set_nth {A} (i : nat) (x : A) (l : list A) : list A :=
   match l, i with
@@ -210,6 +239,9 @@ Fixpoint run (fs : list nfilter) (st : state) (cur : list (option Z)) (ops : lis
       let f := nth i fs no_filter in
       let '(r, c') := poll st f (nth i cur None) in
       BPoll (map project r) :: run fs st (set_nth i c' cur) rest
+  | ORestart :: rest =>
+      let st' := restart st in
+      BRestart (N.of_nat (List.length (s_notices st'))) :: run fs st' cur rest
   end.
 
 (* ------------------------------------------------------------------------------------------ comparison *)
@@ -245,6 +277,7 @@ Definition obs_eqb (a b : obs) : bool :=
   | BAdd None, BAdd None => true
   | BAdd (Some x), BAdd (Some y) => onotice_eqb x y
   | BPoll x, BPoll y => list_eqb onotice_eqb (canon x) (canon y)
+  | BRestart x, BRestart y => N.eqb x y
   | _, _ => false
   end.
 
@@ -355,6 +388,10 @@ Fixpoint mon_run (fs : list nfilter) (m : mstate) (ops : list op) (observed : li
       match mon_add m a r with Some m' => mon_run fs m' ops' obs' | None => false end
   | OPoll i :: ops', BPoll l :: obs' =>
       match mon_poll m fs i l with Some m' => mon_run fs m' ops' obs' | None => false end
+  | ORestart :: ops', BRestart n :: obs' =>
+      (* a restart loses nothing: same notices; occurrence times keep increasing and pending deliveries stay pending
+         across it because the monitor state is simply carried over *)
+      (N.eqb n (N.of_nat (List.length (m_seen m)))) && mon_run fs m ops' obs'
   | _, _ => false
   end.
 
@@ -532,7 +569,8 @@ Definition amonitor_fail (c : acase) : bool :=
 
 Inductive event :=
 | EAdd (a : addargs)
-| EPoll.
+| EPoll
+| ERestart.
 
 Definition nkey := (option N * bytes * bytes)%type.
 Definition key_of (n : notice) : nkey := (n_user n, n_type n, n_key n).
@@ -561,16 +599,17 @@ Fixpoint hrun (f : nfilter) (st : state) (c : option Z) (pend : list nkey) (evs 
       end
   | EPoll :: r =>
       let '(out, c') := poll st f c in (out, pend) :: hrun f st c' [] r
+  | ERestart :: r => hrun f (restart st) c pend r      (* the client keeps its cursor; nothing is delivered or lost *)
   end.
 
 Definition ev_server_clock (e : event) : bool :=
-  match e with EAdd a => match a_time a with None => true | Some _ => false end | EPoll => true end.
+  match e with EAdd a => match a_time a with None => true | Some _ => false end | _ => true end.
 
 (* the occurrence times handed out to the new-or-repeated additions of a history, in order *)
-Fixpoint flag_stamps (st : state) (l : list addargs) : list Z :=
+Fixpoint flag_stamps (st : state) (l : list event) : list Z :=
   match l with
   | [] => []
-  | a :: r =>
+  | EAdd a :: r =>
       match add_notice st a with
       | None => flag_stamps st r
       | Some (st', flag, _) =>
@@ -579,6 +618,17 @@ Fixpoint flag_stamps (st : state) (l : list addargs) : list Z :=
           | None => flag_stamps st' r
           end
       end
+  | EPoll :: r => flag_stamps st r
+  | ERestart :: r => flag_stamps (restart st) r
+  end.
+
+(* the state after a history *)
+Fixpoint state_after (st : state) (l : list event) : state :=
+  match l with
+  | [] => st
+  | EAdd a :: r => match add_notice st a with Some (st', _, _) => state_after st' r | None => state_after st r end
+  | EPoll :: r => state_after st r
+  | ERestart :: r => state_after (restart st) r
   end.
 
 (* the state after a list of additions *)
